@@ -8,21 +8,28 @@ TRUSTED_BASE = [
     "Go compiler, runtime and standard library; the CPU",
 ]
 
+Q4 = ["default", "purego"]
+T4 = ["default", "noavx2", "purego", "force32bit"]
+
+STROBE_THMS = ["Voi.Props.StrobeInv." + n for n in """permute_size access_in_range runF_ok duplexByte_ok duplexLoop_ok duplex_ok
+beginOp_ok operate_ok operate_no_oob operate_inv new_ok run_inv run_no_oob history_from_new newTranscript_ok appendMessage_ok
+extractBytes_ok rekey_ok finalize_ok read_ok oob_is_live posBegin_lt_256 operate_uninit operate_mismatch duplexLoop_append
+operate_append AD_append MetaAD_append KEYm_append PRFm_add operate_chunks clone_independent origin_independent clone_same_step""".split()]
+
 PROPS = {
     "C01": dict(
         level="translation_validation",
-        streams=[("V1", 3000)],
-        configs_quick=["default", "purego"],
-        configs_thorough=["default", "noavx2", "purego", "force32bit"],
-        theorems={},
+        streams=[("V1", 3000)], configs_quick=Q4, configs_thorough=T4, theorems={},
         explanation="Go VerifyWithOptions / VerifyExpandedWithOptions / crypto/ed25519.Verify vs the declarative Lean predicate Spec.Ed25519.verify",
     ),
-    "C02": dict(
-        level="translation_validation",
-        streams=[("K1", 1500)],
-        configs_quick=["default", "purego"],
-        configs_thorough=["default", "noavx2", "purego", "force32bit"],
-        theorems={},
-    ),
+    "C02": dict(level="translation_validation", streams=[("K1", 1500)], configs_quick=Q4, configs_thorough=T4, theorems={}),
+    "C03": dict(level="translation_validation", streams=[("G1", 1500)], configs_quick=T4, configs_thorough=T4, thorough_mult=4, theorems={}),
+    "C05": dict(level="translation_validation", streams=[("S1", 4000)], configs_quick=["default", "force32bit"], configs_thorough=T4, theorems={}),
+    "C07": dict(level="translation_validation", streams=[("X1", 2500)], configs_quick=Q4, configs_thorough=T4, theorems={}),
+    "C10": dict(level="translation_validation", streams=[("D1", 3000)], configs_quick=Q4, configs_thorough=T4, theorems={}),
+    "C11": dict(level="translation_validation", streams=[("T1", 3000)], configs_quick=Q4, configs_thorough=T4, theorems={}),
+    "C13": dict(level="proof", streams=[("M1", 4000), ("S0", 2000)], configs_quick=Q4, configs_thorough=T4,
+                theorems={"Voi.Props.StrobeInv": STROBE_THMS}),
+    "C17": dict(level="translation_validation", streams=[("R1", 4000)], configs_quick=["default", "force32bit"], configs_thorough=T4, theorems={}),
 }
 NOT_YET = {}
